@@ -25,6 +25,8 @@ fixed("F13", "C20", "4529e92", "C20.value|roundtrip|ErrorV", "Value::ErrorV cros
 fixed("F1", "C01", "5836695", "C01.bounds|literal-fidelity|<utils::half_float::HFloat as std::convert::TryFrom<f64>>::try_from", "HFloat::try_from accepted |error| < 1e-5: the literal 0.001 became 0.0010004043579101563 on the VM only")
 fixed("F2", "C01", "3082f70", "C01.ops|op|And", "And/Or (and the dormant Not): VM tested operands with `> 0`, WASM with `!= 0`: (0-1) && 1 gave 0.0 on the VM and 1.0 on WASM")
 fixed("F2", "C01", "3082f70", "C01.ops|op|Or", "same defect, Or")
+fixed("F24", "C16", "3cef71c", "C16.record-layout|slot|eval_expr_as_address|-", "nested field assignment `r.z.b = v` on a record whose annotation lists fields in non-alphabetical order wrote the wrong slot (203 instead of 1023; findings/repro/F24_*.mmm): an agreeing type annotation changed the output")
+fixed("F25", "C16", "03b817f", "C16.record-layout|slot|add_bind_pattern|-", "record pattern `let {z = p, y = q} = r` on a record annotated `{z: float, y: float}` bound the fields crosswise (31 instead of 13; findings/repro/F25_*.mmm)")
 fixed("F21", "C01", "52a554f", "C01.ops|truthiness|JmpIfNeg|F64Const+F64Gt", "`if` on a NaN condition took the then-branch on the VM (cond <= 0.0 test) and the else-branch on WASM (cond > 0.0)")
 
 # ---- C01 operator templates ---------------------------------------------------------------------------
